@@ -30,7 +30,11 @@ Time passes ONLY inside disposed.wait (to the instant of the waking dispose(), e
 timeout) and inside the action: zero thread-scheduling delay and zero Event.wait wake-up latency.
 
 A CASE: {"period": us, "period_as": "timedelta" | "float", "c0": us, "fn": name, "st0": value,
-         "d0": bool, "iters": [record...], "factory": "param" | "default", "post": bool}
+         "d0": bool, "iters": [record...], "factory": "param" | "default", "post": bool,
+         "sched": "newthread" (default) | "threadpool"}
+"threadpool": the scheduler is ThreadPoolScheduler(max_workers=2), which INHERITS the loop and runs it through its own
+thread factory (ThreadPoolThread.start() = executor.submit(run)); the name `ThreadPoolExecutor` seen by
+reactivex.scheduler.threadpoolscheduler is rebound to `CExec`, whose submit() starts the controlled thread.
 Log entries: (kind, clock_us, data, who) with kind in
     threadrun wait test inv end raise disp dispret postdisp cap note
 """
@@ -46,6 +50,7 @@ lib.import_repo()
 import reactivex.internal.concurrency as CONC  # noqa: E402
 import reactivex.scheduler.newthreadscheduler as NTM  # noqa: E402
 import reactivex.scheduler.scheduler as SCH  # noqa: E402
+import reactivex.scheduler.threadpoolscheduler as TPM  # noqa: E402
 
 _Sem = threading.Semaphore
 _Thread = threading.Thread
@@ -177,6 +182,26 @@ class CThr:
 
     def join(self, timeout=None):
         raise DriverError("join on the controlled thread")
+
+
+class CExec:
+    """concurrent.futures.ThreadPoolExecutor of the module under test: submit(fn) runs fn on the controlled thread"""
+
+    def __init__(self, max_workers=None, **kw):
+        if CUR is None:
+            raise DriverError("ThreadPoolExecutor() outside a controlled run")
+        self.max_workers = max_workers
+        self.submitted = 0
+
+    def submit(self, fn, *args, **kwargs):
+        self.submitted += 1
+        CUR.emit("note", "executor.submit", "main")
+        th = CThr(target=fn, args=args, kwargs=kwargs, daemon=True)
+        th.start()
+        return th            # stands for the Future (only .cancel() is ever used on it, by nobody here)
+
+    def shutdown(self, wait=True, **kw):
+        pass
 
 
 class Env:
@@ -378,7 +403,8 @@ class rebound:
         shim = kt.threading_shim()
         shim.Event = CEvt
         shim.Thread = CThr
-        for m, name, new in ((NTM, "threading", shim), (CONC, "Thread", CThr), (SCH, "default_now", _now)):
+        for m, name, new in ((NTM, "threading", shim), (CONC, "Thread", CThr), (SCH, "default_now", _now),
+                             (TPM, "ThreadPoolExecutor", CExec)):
             if not hasattr(m, name):
                 raise DriverError(f"{m.__name__} has no name {name}: the module changed")
             self.undo.append((m, name, getattr(m, name)))
@@ -409,9 +435,12 @@ def run_case(case):
     r = Result()
     r.error = None
     try:
-        from reactivex.scheduler import NewThreadScheduler
-        sch = NewThreadScheduler(thread_factory=env.factory) if case.get("factory") == "param" \
-            else NewThreadScheduler()
+        from reactivex.scheduler import NewThreadScheduler, ThreadPoolScheduler
+        if case.get("sched") == "threadpool":
+            sch = ThreadPoolScheduler(max_workers=2)
+        else:
+            sch = NewThreadScheduler(thread_factory=env.factory) if case.get("factory") == "param" \
+                else NewThreadScheduler()
         p = int(case["period"])
         period = timedelta(microseconds=p) if case.get("period_as", "timedelta") == "timedelta" else p / 1e6
         env.emit("note", "schedule_periodic", "main")
@@ -532,14 +561,15 @@ def oracle(case, r):
         scheduling for the first;
       * it keeps going: the loop ends only after a dispose() or a raising invocation."""
     bad = []
+    tag = "C35 " + case.get("sched", "newthread") + "|"
     p, c0 = int(case["period"]), int(case["c0"])
     log = r.log
     if r.error:
-        return [("C35 newthread|schedule_periodic-raised", r.error)]
+        return [(tag + "schedule_periodic-raised", r.error)]
     if r.outcome in ("hang", "no-thread", "blocked-forever", "aborted", "driver-error"):
-        bad.append((f"C35 newthread|{r.outcome}", f"outcome {r.outcome} {r.crash or ''}"))
+        bad.append((tag + f"{r.outcome}", f"outcome {r.outcome} {r.crash or ''}"))
     if r.outcome == "crashed":
-        bad.append(("C35 newthread|loop-crashed", f"the loop thread died: {r.crash}"))
+        bad.append((tag + "loop-crashed", f"the loop thread died: {r.crash}"))
     invs = [(i, e[1], e[2]) for i, e in enumerate(log) if e[0] == "inv"]
     ends = [(i, e[1], e[2]) for i, e in enumerate(log) if e[0] in ("end", "raise")]
     raises = [i for i, e in enumerate(log) if e[0] == "raise"]
@@ -547,13 +577,13 @@ def oracle(case, r):
     threadrun = next((i for i, e in enumerate(log) if e[0] == "threadrun"), None)
     # threading
     if invs and invs[0][2] != sid(case["st0"]):
-        bad.append(("C35 newthread|first-state-not-initial", f"first invocation got {invs[0][2]}"))
+        bad.append((tag + "first-state-not-initial", f"first invocation got {invs[0][2]}"))
     for k in range(1, len(invs)):
         if k - 1 < len(r.returned):
             want = r.returned[k - 1][1]
             got = invs[k][2]
             if got != sid(want):
-                bad.append(("C35 newthread|state-not-threaded",
+                bad.append((tag + "state-not-threaded",
                             f"invocation {k} got state id {got}, invocation {k - 1} returned {want!r}"))
     # stop after dispose
     for k, (i, clk, _) in enumerate(invs):
@@ -565,48 +595,48 @@ def oracle(case, r):
                 cls = ("period-not-positive" if p <= 0 else
                        "previous-invocation-took-at-least-the-period" if took >= p else
                        "previous-invocation-shorter-than-period")
-                bad.append((f"C35 newthread|invoked-after-dispose|dispose-returned-before-previous-invocation-ended|{cls}",
+                bad.append((tag + f"invoked-after-dispose|dispose-returned-before-previous-invocation-ended|{cls}",
                             f"invocation {k} started at {clk}; dispose() ({who}, {where}) had returned at {dclk}, "
                             f"before invocation {k - 1} ended at {ends[k - 1][1]}"))
                 break
             if k == 0 and threadrun is not None and j < threadrun:
-                bad.append(("C35 newthread|invoked-after-dispose|dispose-returned-before-thread-ran",
+                bad.append((tag + "invoked-after-dispose|dispose-returned-before-thread-ran",
                             f"invocation 0 started at {clk}; dispose() had returned at {dclk} before the "
                             f"new thread executed its first instruction"))
                 break
             if dclk < clk:
-                bad.append(("C35 newthread|invoked-after-dispose|dispose-returned-at-earlier-instant",
+                bad.append((tag + "invoked-after-dispose|dispose-returned-at-earlier-instant",
                             f"invocation {k} started at {clk}; dispose() ({who}, {where}) had returned at {dclk}"))
                 break
     # stop after raise
     if raises and any(i > raises[0] for i, _, _ in invs):
-        bad.append(("C35 newthread|invoked-after-raise", "an invocation started after one raised"))
+        bad.append((tag + "invoked-after-raise", "an invocation started after one raised"))
     # period
     if invs:
         first = invs[0][1]
         if first < c0 + p:
-            bad.append(("C35 newthread|first-call-early", f"first invocation at {first}, scheduled at {c0}, period {p}"))
+            bad.append((tag + "first-call-early", f"first invocation at {first}, scheduled at {c0}, period {p}"))
         elif p >= 0 and first != c0 + p:
-            bad.append(("C35 newthread|first-call-not-one-period-after-scheduling",
+            bad.append((tag + "first-call-not-one-period-after-scheduling",
                         f"first invocation at {first}, scheduled at {c0}, period {p}"))
     for k in range(len(invs) - 1):
         a, b = invs[k][1], invs[k + 1][1]
         took = ends[k][1] - a if k < len(ends) else None
         if b < a + p:
-            bad.append(("C35 newthread|calls-closer-than-period", f"invocations {k}, {k + 1} at {a}, {b}; period {p}"))
+            bad.append((tag + "calls-closer-than-period", f"invocations {k}, {k + 1} at {a}, {b}; period {p}"))
         elif p >= 0 and took is not None and took <= p and b != a + p:
-            bad.append(("C35 newthread|period-not-kept",
+            bad.append((tag + "period-not-kept",
                         f"invocation {k} at {a} took {took} <= period {p}, the next one started at {b}"))
     # keeps going
     if r.outcome == "stopped" and not disprets:
-        bad.append(("C35 newthread|stopped-without-dispose", "run() returned although nobody disposed"))
+        bad.append((tag + "stopped-without-dispose", "run() returned although nobody disposed"))
     if r.outcome == "running" and not any("invoked-after-" in b[0] for b in bad):
-        bad.append(("C35 newthread|did-not-stop", f"still invoking after {len(invs)} invocations (cap)"))
+        bad.append((tag + "did-not-stop", f"still invoking after {len(invs)} invocations (cap)"))
     for e in log:
         if e[0] == "postdisp" and e[2] != "ok":
-            bad.append(("C35 newthread|second-dispose-raised", str(e[2])))
+            bad.append((tag + "second-dispose-raised", str(e[2])))
         if e[0] == "note" and e[2] == "a second thread was started":
-            bad.append(("C35 newthread|second-thread", "schedule_periodic started more than one thread"))
+            bad.append((tag + "second-thread", "schedule_periodic started more than one thread"))
     return bad
 
 
